@@ -248,8 +248,8 @@ package server
 // expiry of the restart timer - a reconnection attempt that fails inside the window is not one
 //@ func (*BgpServer).handleFSMMessage
 //@   claims at-call
-//@   at-call ^s.dropAdjRIBIn(peer, peer.configuredRFlist()) requires e.StateReason != nil && e.StateReason.Type == fsmRestartTimerExpired
-//@   at-call peer.llgrFamilies() requires e.StateReason != nil && e.StateReason.Type == fsmRestartTimerExpired
+//@   at-call ^s.dropAdjRIBIn(peer, peer.configuredRFlist()) requires restartTimerExpired
+//@   at-call peer.llgrFamilies() requires restartTimerExpired
 
 // "... until the per-family long-lived timer expires": what the expiry removes are the routes still stale; routes the
 // peer has re-announced since (the session may be up again, End-of-RIB not yet in) are fresh and stay. The closure is
